@@ -7,8 +7,8 @@ using vrf::Win;
 
 enum Form { Q_LOCK, Q_TRY, Q_TRY_FOR, Q_TRY_UNTIL, NFORM };
 static const char* const FORMN[] = {"lock", "try", "try_for", "try_until"};
-enum Rel { R_DESTROY, R_UNLOCK, R_MOVE_CTOR, R_MOVE_ASSIGN, NREL };
-static const char* const RELN[] = {"destroy", "unlock()", "move-construct", "move-assign"};
+enum Rel { R_DESTROY, R_UNLOCK, R_MOVE_CTOR, R_MOVE_ASSIGN, R_SELF_MOVE_ASSIGN, NREL };
+static const char* const RELN[] = {"destroy", "unlock()", "move-construct", "move-assign", "self-move-assign"};
 
 struct Cycle {
     bool shared;
@@ -135,6 +135,16 @@ static void life(const Cycle& c, bool enabled, bool solo, Acquire acquire, Acqui
             if (vrf::held_count() != expect) fail("oracle:moved_from_handle_released_the_lock", c);
             // g dies at the end of this scope
             break;
+        }
+        case R_SELF_MOVE_ASSIGN: {
+            // a handle move-assigned to itself (an alias, a compaction loop with out == in) is the handle it was before:
+            // still non-null exactly when it holds the lock
+            H& alias = h;
+            h = std::move(alias);
+            if (vrf::held_count() != held_with) fail("oracle:self_move_assignment_changed_lock_ownership", c);
+            if (enabled && static_cast<bool>(h) != (vrf::held_count() == before + 1))
+                fail("oracle:handle_non_null_without_the_lock_after_self_move_assignment", c);
+            break;  // h dies at the end of the caller's scope
         }
     }
     (void)held_with;
